@@ -87,7 +87,7 @@ def corrupt(ev, rng):
 def kind_class(kind):
     """Stable input class of a mutation kind (positions and numbers dropped)."""
     import re
-    return re.sub(r"\d+", "N", kind.split("@")[0])
+    return re.sub(r"(?<![A-Za-z0-9])\d+", "N", kind.split("@")[0])
 
 
 def signature_of(e, bad):
